@@ -58,4 +58,18 @@ def run(tier, seed):
                              'kind': 'bounded native: %s' % ', '.join(a for a, _ in BRX.PAIRS), 'counted_as_proved': False})
         if badr:
             pack.violation(name, {'bounded': True, 'inputs': badr, 'native_cmd': 'contracts/bounded_raw_crosscheck.py'})
+    # the dynamic-data (DYR) half of a PSS/E pair: the import table, and pairs read back against the text of the files
+    from contracts import bounded_dyr as BD
+    BD.table_obligations(pack, 'C13')
+    for fn, label, kind in ((BD.run, 'every-machine-carries-the-status-of-the-static-generator-it-replaces(=STAT-of-the-RAW-record)',
+                             'bounded native: ieee14.raw + ieee14.dyr, each machine in turn out of service in the RAW text'),
+                            (BD.run_records, 'every-record-position-reaches-the-destination-parameter-the-table-names',
+                             'bounded native: generated REGCA1 / REECA1 / WTDTA1 / WTARA1 / WTPTA1 / WTTQA1 records with a distinct value per position')):
+        dname = 'C13/andes/io/psse.py:read_add/bounded:' + label
+        r = native_guard(pack, dname, fn)
+        if r is not None:
+            nd, badd = r
+            pack.bounded.append({'function': 'andes.io.psse.read_add driven by psse-dyr.yaml (end to end)', 'checks': nd, 'kind': kind, 'counted_as_proved': False})
+            if badd:
+                pack.violation(dname, {'bounded': True, 'inputs': badd, 'native_cmd': 'contracts/bounded_dyr.py'})
     return pack.finish()
